@@ -112,7 +112,13 @@ def names_of(spec, kinds):
 def resreq(rng, spec, p=0.6):
     if not spec['res'] or rng.random() > p:
         return None
-    return {k: rng.choice([1, 1, 2]) for k in spec['res'] if rng.random() < 0.7} or None
+    need = {k: rng.choice([1, 1, 2]) for k in spec['res'] if rng.random() < 0.7} or None
+    if need and rng.random() < 0.25:
+        # an entry asking for nothing: of a pool that was never declared, or of a declared one
+        need[rng.choice(['ghost'] + list(spec['res']))] = 0
+        if not any(v > 0 for v in need.values()):
+            need[rng.choice(list(spec['res']))] = 1
+    return need
 
 
 def proc(rng, spec, name, up, cgrid=GRID):
@@ -216,7 +222,14 @@ def gen_general(rng, with_group=True):
     procs = names_of(spec, 'P')
     blockable = names_of(spec, ('P', 'H', 'B', 'BA', 'GP', 'G'))
     spec['actions'] = actions(rng, spec, rng.choice([0, 2, 5, 9]), procs, blockable, names_of(spec, 'S'),
-                              [d['n'] for d in all_devs(spec) if d['k'] == 'H'])
+                              [d['n'] for d in all_devs(spec) if d['k'] in ('H', 'K')])   # one-shot offsets: also sinks
+    if rng.random() < 0.2:
+        # a sink that is usually instantaneous (or quick) takes longer for single parts: one-shot positive offsets
+        k = rng.choice([d for d in devs if d['k'] == 'K'])
+        if rng.random() < 0.7:
+            k['c'] = 0
+        for _ in range(rng.choice([1, 2, 4])):
+            spec['actions'].append([rng.choice(TIMES), rng.choice(PRIOS), 'offset', k['n'], rng.choice([0.5, 1, 2.5])])
     # mid-run rewiring (add a connection from an earlier holding device)
     if rng.random() < 0.2:
         cands = [d for d in devs if d['k'] in ('H', 'P', 'B')]
@@ -351,7 +364,7 @@ def gen_groups(rng):
     for a in spec['actions']:
         if a[2] in ('fail', 'maint', 'restore', 'shutdown', 'wo') and allk.get(a[3]) != 'P':
             continue
-        if a[2] == 'offset' and allk.get(a[3]) not in ('P', 'H'):
+        if a[2] == 'offset' and allk.get(a[3]) not in ('P', 'H', 'K'):
             continue
         if a[2] == 'block' and a[3] not in allk:
             continue
@@ -404,6 +417,8 @@ def gen_contention(rng):
     ps = []
     for j in range(k):
         need = {r: rng.choice([1, 1, 2]) for r in spec['res'] if rng.random() < 0.85} or {'r0': 1}
+        if rng.random() < 0.2:
+            need['ghost'] = 0       # nothing of an undeclared pool
         devs.append({'k': 'P', 'n': f'P{j}', 'c': rng.choice([0, 0.5, 1, 2, 3]), 'up': list(up), 'res': need,
                      'alt': None, 'wod': rng.choice([0.5, 2]), 'wocap': 1, 'wocost': 2})
         ps.append(f'P{j}')
@@ -728,6 +743,35 @@ def gen_values(rng):
         else:
             acts.append([t, pr, 'restore', rng.choice(procs)])
     spec['actions'] = acts
+    # starting values of the machines and of the crew, a second crew / sensors that only carry a value
+    for d in devs:
+        if d['k'] == 'P' and rng.random() < 0.5:
+            d['v0'] = rng.choice([-12.5, 3.25, 100, -0.125])
+    if rng.random() < 0.5:
+        spec['maint_v0'] = rng.choice([-20, 7.5, 0.25])
+    ex = []
+    if rng.random() < 0.4:
+        ex.append({'k': 'M', 'n': rng.choice(['maint', 'maint', 'crew2']), 'cap': 1, 'v': rng.choice([-7.5, 4, 0.5])})
+    for _ in range(rng.choice([0, 0, 1, 2])):
+        ex.append({'k': 'PS', 'n': rng.choice(['sens', 'sens', procs[0], 'maint']), 'iv': rng.choice([0.5, 1.5, 4]),
+                   'target': rng.choice(procs), 'v': rng.choice([-3.25, -1, 2])})
+    if ex:
+        spec['extras'] = ex
+    if rng.random() < 0.35:
+        # amounts off the dyadic grid (thirds, decimals, very small ones): bookings must not be rounded away
+        odd = [1 / 3, 0.1, 2.675, 7.3, 1e-7, 0.1234567891, 4e-7]
+        for d in devs:
+            if d['k'] == 'S':
+                d['val'] = rng.choice(odd)
+            if d['k'] == 'P':
+                if d.get('valadd'):
+                    d['valadd'] = rng.choice(odd)
+                if d.get('rvaladd'):
+                    d['rvaladd'] = rng.choice(odd)
+                d['wocost'] = rng.choice(odd + [-1 / 3])
+                if 'v0' in d:
+                    d['v0'] = rng.choice([-1 / 3, 12.3456789])
+        spec['odd_values'] = True
     spec = finish(rng, spec, 'values')
     if rng.random() < 0.35:
         T = sum(spec['T'])
